@@ -238,6 +238,7 @@ func (ps paramSingle) buildWithDecorators(c containerStore) (v reflect.Value, fo
 			CtorID: 1,
 			Key:    key{t: ps.Type, name: ps.Name},
 			Reason: err,
+			node:   d,
 		}
 		return v, found, err
 	}
@@ -299,6 +300,7 @@ func (ps paramSingle) Build(c containerStore) (reflect.Value, error) {
 			CtorID: n.ID(),
 			Key:    key{t: ps.Type, name: ps.Name},
 			Reason: err,
+			node:   n,
 		}
 	}
 
@@ -595,6 +597,7 @@ func (pt paramGroupedSlice) callGroupDecorators(c containerStore) error {
 					CtorID: d.ID(),
 					Key:    key{group: pt.Group, t: pt.Type.Elem()},
 					Reason: err,
+					node:   d,
 				}
 			}
 		}
@@ -616,6 +619,7 @@ func (pt paramGroupedSlice) callGroupProviders(c containerStore) (int, error) {
 					CtorID: n.ID(),
 					Key:    key{group: pt.Group, t: pt.Type.Elem()},
 					Reason: err,
+					node:   n,
 				}
 			}
 		}
